@@ -325,6 +325,17 @@ def check_payload_strings(ctx, db):
             if name in LENGTH_CALLEES:
                 ctx.ok('R-BOUND.cstring', '%s/%s@%s' % (qn.replace('gdstk::', ''), name, c.loc()), c.loc(), 'payload handed to %s with an explicit length' % name)
                 continue
+            # a file-local helper that receives the payload is part of the arm: inside it the pointer must again only reach
+            # length-taking functions
+            helper = next((g for g, _ in db.local_helpers(f) if g.qn == c.callee and len(g.params) == len(c.args)), None)
+            if helper is not None:
+                idx = next(i_ for i_, a in enumerate(c.args) if a in direct)
+                pk = 'v%d:%s' % (helper.params[idx]['d'], helper.params[idx]['n'])
+                inner = [cc for cc in helper.walk() if cc.k in ('CallExpr', 'CXXMemberCallExpr') and any(_strip_casts(a).k == 'DeclRefExpr' and lvalue_key(_strip_casts(a)) == pk for a in cc.args)]
+                okh = all((cc.callee or '').split('::')[-1] in LENGTH_CALLEES for cc in inner) and not any(x.k == 'ReturnStmt' and x.child('value') is not None and lvalue_key(_strip_casts(x.child('value'))) == pk for x in helper.walk())
+                ctx.check(okh, 'R-BOUND.cstring', '%s/%s@%s' % (qn.replace('gdstk::', ''), name, c.loc()), c.loc(), 'the helper %s hands the payload only to functions that take an explicit length' % name,
+                          'the helper %s passes the record payload to a function that reads up to a NUL byte' % name)
+                continue
             arm = next((a for a in c.ancestors() if a.k in ('CaseStmt', 'DefaultStmt')), None)
             scope = arm if arm is not None else f.body
             term = [x for x in scope.walk() if is_assign(x) and x.id < c.id and _strip_casts(x.child('lhs')).k == 'ArraySubscriptExpr' and lvalue_key(_strip_casts(_strip_casts(x.child('lhs')).child('base') or _strip_casts(x.child('lhs')).c[0])) == key and x.child('rhs').cv == 0]
